@@ -16,6 +16,7 @@ Inductive query :=
 | QRmatmul (Y : BT)     (* Y @ op, Y at least 2-D *)
 | QRmatvec (v : BT)     (* v @ op, v 1-D given as n x 1; result given as n' x 1 *)
 | QTMatmul (X : BT)     (* op.mT @ X *)
+| QTmmInternal (X : BT) (* op._t_matmul(X): internal; reached publicly below Root-like parents and in backward *)
 | QToDense              (* op.to_dense() *)
 | QTToDense             (* op.mT.to_dense() *)
 | QSize.                (* op.shape (= size(), batch_shape + matrix_shape); observed as ObsT bs m n [] *)
@@ -32,6 +33,7 @@ Definition run_query (e : OpExpr) (q : query) (o : obs) : bool :=
       | QRmatmul Y => BT_matches (pub_rmatmul e Y) bs r c t
       | QRmatvec v => BT_matches (pub_rmatvec e v) bs r c t
       | QTMatmul X => BT_matches (pub_matmul (tr e) X) bs r c t
+      | QTmmInternal X => BT_matches (mm true e X) bs r c t
       | QToDense => BT_matches (td e) bs r c t
       | QTToDense => BT_matches (td (tr e)) bs r c t
       | QSize => shape_eqb3 (sz e) bs r c
